@@ -100,7 +100,7 @@ class FastHierarchyAnalyzer(HierarchyAnalyzerBase):
         def _get_graph() -> Tuple[Tuple[int, ...], DSGType]:
             graph = self.adsg
             if len(opt_idx_try) == 0:
-                return graph.copy()
+                return tuple(), graph.copy()
 
             # Generate graph
             taken_sel_opt = [X_INACTIVE_VALUE for _ in range(len(opt_idx_try))]
@@ -208,6 +208,9 @@ class FastHierarchyAnalyzer(HierarchyAnalyzerBase):
         def _iter_neighbor_next(i_iter=0, prev_values=None):
             if prev_values is None:
                 prev_values = []
+            if len(opt_idx) == 0:  # No selection choices: there is only the empty design vector
+                yield tuple()
+                return
             for value in _iter_values(i_dv=i_iter):
                 next_values = prev_values+[value]
                 if i_iter < len(opt_idx)-1:
